@@ -1,8 +1,8 @@
 SPECIFICATION Spec
-CONSTANTS MaxLen = 3
+CONSTANTS Lens = {1, 2, 3}
   Sizes = {64, 80}
   Pkts <- FeePkts
   Filters <- FeeFilters
-  CutAll = FALSE
+  CutMode = "none"
 INVARIANTS ChainExact PrefixKept Emit
 CHECK_DEADLOCK FALSE
